@@ -101,7 +101,7 @@ def SYNC(signal_rx: electrical_signal | np.ndarray,
     if np.max(corr) < 3*np.std(corr): 
         raise ValueError('No correlation maximum found!!') # false positive
     
-    i = np.argmax(corr)
+    i = np.argmax(corr[:l]) # the delay is less than one pattern length (index l is the periodic repetition of index 0)
 
     signal_sync = electrical_signal(signal_rx[i:-(l-i)])
     signal_sync.execution_time = toc()
